@@ -77,7 +77,8 @@ func (x sp) drawContRepr() int {
 }
 
 func drawStructRepr(t *rapid.T) int {
-	return rapid.SampledFrom([]int{2, 7, 10, 15}).Draw(t, "struct") + 16*rapid.IntRange(0, 3).Draw(t, "ptr") + 64*drawLayout(t)
+	// (typed fields and pointer levels multiply the length of the type names, which reflect keeps for ever)
+	return rapid.SampledFrom([]int{2, 7, 2, 10, 7, 15}).Draw(t, "struct") + 16*rapid.SampledFrom([]int{0, 0, 2, 0, 3}).Draw(t, "ptr") + 64*drawLayout(t)
 }
 
 // drawLayout draws the layout bits of a struct representation (see layoutOf).
